@@ -755,6 +755,10 @@ func (x *Exec) havocLoopHeap(fr *Frame, st *State, li *loopInfo) {
 					}
 				}
 				if fn := i.Common().StaticCallee(); fn != nil && strings.HasPrefix(funcKey(fn), "math/big.") && !i.Common().IsInvoke() {
+					switch fn.Name() {
+					case "Sign", "IsUint64", "IsInt64", "Cmp", "CmpAbs", "Uint64", "Int64", "String", "Text", "BitLen":
+						continue // observers: they do not change any big integer
+					}
 					// big-integer intrinsics write only the abstract value of their receiver
 					names["BigVal"] = true
 					if len(i.Common().Args) == 0 || !bigFreshRooted(i.Common().Args[0], 0) {
